@@ -49,7 +49,7 @@ def coherent(out, model, attrs, shape, order_seed, tag='', seen_mag=0.0):
     # iterates that overflowed (F22: 1.8e308) get none.
     if not seen_mag <= 1e14: seen_mag = 0.0
     sum_tol = 1e-6 + 1e-14 * max(mag, seen_mag)
-    rt = 1e-6 + 1e-14 * seen_mag
+    rt = 1e-6 + 1e-14 * max(seen_mag, mag if mag <= 1e14 else 0.0)      # (the normalising constant carries the same rounding into every clique)
     at = 1e-9 * tot
     if hasattr(model, 'marginals'):
         for cl in model.cliques:
@@ -153,7 +153,17 @@ def run_case(case):
 
 def _md_stalled(case, outc):
     """F14: mirror descent with line search on an input where it cannot make progress for many iterations."""
-    return case.get('solver') == 'MD' and case.get('stepsize') is None and outc.extra.get('theta_offset', 0.0) >= 1e6
+    if case.get('solver') != 'MD' or case.get('stepsize') is not None:
+        return False
+    # ... or, when the optimum lies on the boundary (answers infeasible for the total in use), every doubled step is
+    # accepted and the parameters themselves run away (>= 1e14 after >= 10 iterations; gradients here are <= 1e10)
+    return outc.extra.get('theta_offset', 0.0) >= 1e6 or (case.get('iters', 0) >= 10 and outc.extra.get('seen_mag', 0.0) >= 1e14)
 
 
-KNOWN = {'md_step_doubling': _md_stalled}
+def _md_tiny_units(case, outc):
+    """F21-C08: mirror descent starts its line search at 2/total^2 and halves at most 25 times per iteration; for totals
+    around 1e-8 that start is ~1e16 and the accepted step leaves parameters of ~1e18, which float64 cannot resolve."""
+    return case.get('solver') == 'MD' and case.get('stepsize') is None and case.get('units') == 1e-8 and outc.extra.get('seen_mag', 0.0) >= 1e12
+
+
+KNOWN = {'md_step_doubling': _md_stalled, 'md_tiny_units': _md_tiny_units}
